@@ -335,7 +335,10 @@ fn value_range(input: Input<'_>) -> ParserResult<'_, SubtypeElements> {
 fn size_constraint(input: Input<'_>) -> ParserResult<'_, SubtypeElements> {
     opt_delimited(
         skip_ws_and_comments(char(LEFT_PARENTHESIS)),
-        skip_ws_and_comments(into(preceded(tag(SIZE), constraint))),
+        skip_ws_and_comments(map_res(preceded(tag(SIZE), constraint), |c| {
+            SubtypeElements::try_from(c)
+                .map_err(|_| MiscError("The operand of SIZE is not a subtype constraint."))
+        })),
         skip_ws_and_comments(char(RIGHT_PARENTHESIS)),
     )
     .parse(input)
